@@ -1,9 +1,11 @@
 import StsModel.Drv.Ranges
+import StsModel.Drv.Stage
 namespace Sts.Drv
 
 def main (args : List String) : IO UInt32 :=
   match args with
   | ["ranges"] => run rangesStep []
+  | ["stage"] => run stageStep {}
   | _ => do
     IO.eprintln "usage: stsdrv <component>   (ranges)"
     return 2
